@@ -22,7 +22,8 @@ RULE = ("histories of 3-20 operations: create root connection (http/https addres
         "them with None / one adapter / list / tuple, issue get/post/put/delete/patch through any live connection or a "
         "caller method with params needing url-encoding, data None/str/bytes/structured, caller headers, raw_response, "
         "empty or JSON response bodies. Non-trivial = a request through a chain of depth >=2 containing an auth layer, or a "
-        "request through an object after something was derived/cloned from it; distinct by history hash.")
+        "request through an object after something was derived/cloned from it; distinct by history hash."
+        " Also: a response processor that maps an empty answer to None (return value compared with a fold of the chain); str / bytes subclass and str-mixin enum bodies.")
 ASSUMPTIONS = [
     "path joints: prefix + path with one '/' dropped when the prefix ends and the path starts with '/' (adapter's documented behaviour)",
     "caller headers never contain Authorization when the chain authenticates; never two auth layers (package asserts on both)",
